@@ -232,6 +232,8 @@ def run_cfg(chk, facts, cfg):
     if not chk.anchor('Interval+constructors' + sfx, m if m.ok() else None):
         chk.notes.extend(m.problems)
         return
+    from ..overrides import obligation as no_overrides
+    no_overrides(chk, PID, facts, sfx, [m.path], 'interval arithmetic')
     n = 0
     scalar = lambda imp: [t['k'] for t in imp.get('trait_args', [])] == ['param']
     for tr, opname in (('core::ops::Add', 'add'), ('core::ops::Sub', 'sub'), ('core::ops::Mul', 'mul'), ('core::ops::Div', 'div')):
